@@ -71,6 +71,9 @@ def _basic_items(rng, v, nlev):
 
 
 def gen_case(rng, tier, index):
+    if index % 10 == 9:         # the Python-only half of the property (lane P)
+        from checks import pstreams
+        return pstreams.gen_p(rng, tier, PROPERTY)
     stream = ["commute", "commute", "api", "setitem", "queries"][index % 5]
     cfg = gen.Cfg(tier, zero_fields=True, unions=False, categorical=False)
     cfg.tier = tier
@@ -110,6 +113,9 @@ def gen_case(rng, tier, index):
 
 
 def run_case(ctx, case):
+    if case.get("lane") == "P":
+        from checks import pstreams
+        return pstreams.run_p(ctx, case)
     b = ctx.lib
     d = case["layout"]
     T = case["T"]
